@@ -36,6 +36,15 @@ def main(argv):
     impl = run_impl('json_worker', {'cases': [{'op': 'process', 'doc': d} for d in docs]}, timeout=1800)['results']
     model = run_model([[400, G.json_sx(d)] for d in docs], timeout=1800)
     spec = run_model([[403, ex, wc, [G.decl_sx(d) for d in f]] for f, ex, wc in files], timeout=1800)
+    # every tenth document also through the other entry point, load_file(path)
+    pick = list(range(0, len(docs), 10))
+    via_file = run_impl('json_worker', {'cases': [{'op': 'process', 'doc': docs[k], 'via': 'file', 'raw_utf8': k % 20 == 0} for k in pick]}, timeout=1800)['results']
+    nvf = 0
+    for k, rf in zip(pick, via_file):
+        if impl_outcome(rf) != impl_outcome(impl[k]) and nvf < 3:
+            nvf += 1
+            rep.violation(f'load_file(path).process() does not yield what the same document yields when given as a string: {str(impl_outcome(rf))[:200]}',
+                          {'file': files[k][0], 'document': docs[k], 'how': 'file reached as <dir>/link/../doc.json, `link` a symbolic link to <dir>/real/sub'})
     nv = 0
     for (f, ex, wc), d, r, m, s in zip(files, docs, impl, model, spec):
         nd = G.count_decls(f)
